@@ -149,6 +149,62 @@ Theorem C03_json_roundtrip :
 Proof. exact json_roundtrip. Qed.
 Print Assumptions C03_json_roundtrip.
 
+(* 8. (composition with property C19) The two parser laws of theorem 7 are theorems about the
+      executable models of ethtypes.BigIntegerFromString - property C19's (EthTypes/Model.v) and the
+      local copy of C02 (Abi/InputModel.v): both read the base-10 text [Z_dec z] and the signed 0x-hex
+      text [Z_0xhex z] = ["-"] "0x" hex(|z|) of EVERY integer z back as z.  No size guard: both texts
+      are read by the big.Int.SetString(s, 0) branch, which has no limit; C19's guards (|exponent| <=
+      10^6, text shorter than 2^28) belong to the ParseFloat / Rat.SetString branch, which these
+      renderings never reach.  Moreover the base-10 text of every z, and the 0x-hex text of every
+      z >= 0, are spellings of C19's quantifier denoting z ("-0x.." is not one of C19's classes; the
+      model is shown to read it all the same).  Proof: the digit-list form of N.to_uint /
+      N.to_hex_uint (Abi/SerRoundTripDigits.v: Pos.of_uint_acc is the Horner scheme, normal forms
+      have no leading zero), then C19's set_string_dec / set_string_neg_dec / set_string_hex and
+      C02's decimal_text_exact / hex_text_exact. *)
+From FFS Require Abi.InputC19 Abi.SerRoundTripC19 EthTypes.Model EthTypes.Spec.
+Theorem C03_parser_reads_renderings :
+  forall z : Z,
+    EthTypes.Model.BigIntegerFromString (Z_dec z) = Ok z /\
+    EthTypes.Model.BigIntegerFromString (SerRoundTripC19.Z_0xhex z) = Ok z /\
+    InputModel.BigIntegerFromString (Z_dec z) = Ok z /\
+    InputModel.BigIntegerFromString (SerRoundTripC19.Z_0xhex z) = Ok z /\
+    EthTypes.Spec.denotes (Z_dec z) z 0 /\ (0 <= z -> EthTypes.Spec.denotes (SerRoundTripC19.Z_0xhex z) z 0).
+Proof. exact SerRoundTripC19.parser_reads_renderings. Qed.
+Print Assumptions C03_parser_reads_renderings.
+
+(* 9. JSON round trip, UNCONDITIONAL in the parser: theorem 7 with property C19's model of
+      ethtypes.BigIntegerFromString in the place of [bifs] - same guards on the serializer, the type
+      and the value, no hypothesis about the text parser left.  (Remaining assumptions are the ones
+      of the statement itself: [H] has 32-byte outputs; [ext_of] is what encoding/json hands back.) *)
+Theorem C03_json_roundtrip_c19 :
+  forall (H : bytes -> bytes), (forall x, length (H x) = 32%nat) ->
+  forall (fs : bfloat -> jv) (s : serializer),
+    ts s = FormatAsFlatArrays \/ ts s = FormatAsObjects ->
+    bs s <> Base64ByteSerializer ->
+  forall (children : list tcomp) (v : val),
+    let c := root_of children in
+    ser_ok s c = true -> widths_ok c = true -> tc_wf c = true -> tc_no_zero_len c = true ->
+    well_typed (ty_of c) v = true -> weight_ok v ->
+    exists j, SerializeJSON H fs NumericDefaultNameGenerator s (cv_of c v) = Ok j /\
+              EncodeABIDataValues EthTypes.Model.BigIntegerFromString children (ext_of j) = Ok (enc (ty_of c) v).
+Proof. exact SerRoundTripC19.json_roundtrip_c19. Qed.
+Print Assumptions C03_json_roundtrip_c19.
+
+(* 9'. The same for the local copy of the parser that the correspondence run evaluates. *)
+Theorem C03_json_roundtrip_local :
+  forall (H : bytes -> bytes), (forall x, length (H x) = 32%nat) ->
+  forall (fs : bfloat -> jv) (s : serializer),
+    ts s = FormatAsFlatArrays \/ ts s = FormatAsObjects ->
+    bs s <> Base64ByteSerializer ->
+  forall (children : list tcomp) (v : val),
+    let c := root_of children in
+    ser_ok s c = true -> widths_ok c = true -> tc_wf c = true -> tc_no_zero_len c = true ->
+    well_typed (ty_of c) v = true -> weight_ok v ->
+    exists j, SerializeJSON H fs NumericDefaultNameGenerator s (cv_of c v) = Ok j /\
+              EncodeABIDataValues InputModel.BigIntegerFromString children (ext_of j) = Ok (enc (ty_of c) v).
+Proof. exact SerRoundTripC19.json_roundtrip_local. Qed.
+Print Assumptions C03_json_roundtrip_local.
+
 (* non-vacuity: a dynamic tuple inside a fixed array next to a string, named and unnamed members,
    decoded after a selector and before trailing bytes *)
 Example C03_decode_nonvacuous :
@@ -216,4 +272,39 @@ Proof.
   split; [eexists; split; [vm_compute; reflexivity|vm_compute; reflexivity]|].
   split; [eexists; split; [vm_compute; reflexivity|vm_compute; reflexivity]|].
   vm_compute. reflexivity.
+Qed.
+
+(* non-vacuity of theorems 8 / 9: the guards hold and the conclusion is checked by computation with
+   C19's model of BigIntegerFromString, for uint256 / int256 at their extremes (2^256-1, -2^255: texts
+   of 78 digits / 64 hex digits, far beyond any machine word) in object mode with 0x-hex integers and
+   in flat-array mode with base-10 strings and JSON numbers; the renderings of -2^255 are the texts
+   "-578960...968" and "-0x8000...0" *)
+Example C03_json_roundtrip_c19_nonvacuous :
+  let H := fun _ : bytes => repeat x00 32 in
+  let s1 := {| ts := FormatAsObjects; is_ := HexIntSerializer0xPrefix;
+               bs := HexByteSerializer0xPrefix; ad := Some ChecksumAddrSerializer |} in
+  let s2 := {| ts := FormatAsFlatArrays; is_ := Base10StringIntSerializer;
+               bs := HexByteSerializer; ad := None |} in
+  let s3 := {| ts := FormatAsFlatArrays; is_ := JSONNumberIntSerializer;
+               bs := HexByteSerializer; ad := None |} in
+  let children := [TCElem EUInt [x32; x35; x36] 256 0 [x61]; TCElem EAddress [] 160 0 [];
+                   TCDynArr (TCElem EInt [x32; x35; x36] 256 0 [x30; x78]) [x30; x78];
+                   TCTuple [TCElem EString [] 0 0 [x73]; TCElem EBytes [] 0 0 []] [x74]] in
+  let c := root_of children in
+  let v := VList [VNum (2 ^ 256 - 1); VNum 255; VList [VNum (- 2 ^ 255); VNum 9007199254740991; VNum 0];
+                  VList [VBytes [x68; x69]; VBytes [x00; xff]]] in
+  ser_ok s1 c = true /\ ser_ok s2 c = true /\ ser_ok s3 c = true /\ widths_ok c = true /\ tc_wf c = true /\
+  tc_no_zero_len c = true /\ well_typed (ty_of c) v = true /\
+  (exists j, SerializeJSON H (fun _ => JNull) NumericDefaultNameGenerator s1 (cv_of c v) = Ok j /\
+             EncodeABIDataValues EthTypes.Model.BigIntegerFromString children (ext_of j) = Ok (enc (ty_of c) v)) /\
+  (exists j, SerializeJSON H (fun _ => JNull) NumericDefaultNameGenerator s2 (cv_of c v) = Ok j /\
+             EncodeABIDataValues EthTypes.Model.BigIntegerFromString children (ext_of j) = Ok (enc (ty_of c) v)) /\
+  (exists j, SerializeJSON H (fun _ => JNull) NumericDefaultNameGenerator s3 (cv_of c v) = Ok j /\
+             EncodeABIDataValues EthTypes.Model.BigIntegerFromString children (ext_of j) = Ok (enc (ty_of c) v)) /\
+  length (Z_dec (- 2 ^ 255)) = 78%nat /\ length (SerRoundTripC19.Z_0xhex (- 2 ^ 255)) = 67%nat /\
+  EthTypes.Model.BigIntegerFromString (SerRoundTripC19.Z_0xhex (- 2 ^ 255)) = Ok (- 2 ^ 255).
+Proof.
+  cbv zeta. do 7 (split; [vm_compute; reflexivity|]).
+  do 3 (split; [eexists; split; [vm_compute; reflexivity|vm_compute; reflexivity]|]).
+  split; [vm_compute; reflexivity|]. split; [vm_compute; reflexivity|]. vm_compute; reflexivity.
 Qed.
